@@ -233,8 +233,18 @@ def check_wait(c, f):
     n, k = ws[0]
     ok = len(k.args) == 2 and norm(k.args[0]).endswith('.fut') and is_name(k.args[1], f.params[1])
     c.check(ok, f, k, 'awaits wait_for(<protocol>.fut, timeout): bounded by the call\'s timeout', witness=norm(k), kind='ast', tag='wait_for')
-    c.check(isinstance(n.ast, ast.Return), f, k, 'the awaited outcome is returned unchanged', kind='ast', tag='returned')
-    tr = [p for p in parent_chain(k) if isinstance(p, ast.Try)]
+    # the await itself: `return await wait_for(...)`, or the coroutine object is put into a local first and awaited later
+    # (creating it raises nothing; the timeout surfaces where it is awaited)
+    aw = k
+    an = n
+    if isinstance(n.ast, ast.Assign) and len(n.ast.targets) == 1 and isinstance(n.ast.targets[0], ast.Name) and n.ast.value is k:
+        pv = n.ast.targets[0].id
+        al_ = aliases_of(f)
+        aws = [(m, x) for m in g.nodes if m.ast is not None for r_ in node_roots(m) for x in ast.walk(r_) if isinstance(x, ast.Await) and is_name(x.value, pv)]
+        c.need(pv in al_.single_assign and len(aws) == 1, 'expect_async: the wait_for() coroutine is not awaited exactly once')
+        an, aw = aws[0]
+    c.check(isinstance(an.ast, ast.Return) and isinstance(an.ast.value, ast.Await), f, k, 'the awaited outcome is returned unchanged', kind='ast', tag='returned')
+    tr = [p for p in parent_chain(aw) if isinstance(p, ast.Try)]
     c.need(tr, 'wait_for is not inside a try')
     hs = [h for h in tr[0].handlers if 'TimeoutError' in norm(h.type)]
     ok = len(hs) == 1
